@@ -55,7 +55,16 @@ fn check_point<T: Sc>(o: &mut Obs, sc: &Scenario, prob: &AnyProblem<T>, ctl: &Sp
     let coe = prob.coeffs();
     let expect = shadow_cache_present(&log);
     let mk = |what: &str| json!({"scenario": sc.spec.to_json(), "fault": o.ctx, "at": where_, "what": what});
-    if let Some(expect) = expect {
+    if let Some(mut expect) = expect {
+        if expect && res.is_none() && coe.is_none() {
+            // all model calls succeeded, yet no state: legitimate iff the weighted basis matrix at the
+            // reported parameters is unusable (non-finite, or no finite decomposition) - C08's domain
+            let params: Vec<f64> = prob.params().iter().map(|v| v.w()).collect();
+            if crate::oracle::dependency_svd_error_at::<T>(&sc.spec, &params).is_none() {
+                o.out.count("absent_because_basis_matrix_unusable");
+                expect = false;
+            }
+        }
         if res.is_some() != expect || coe.is_some() != expect {
             let w = format!("{where_}: the last parameter application/evaluation {} but residuals present={} coefficients present={} [{}]",
                 if expect { "succeeded" } else { "failed" }, res.is_some(), coe.is_some(), o.ctx);
@@ -317,8 +326,8 @@ pub fn run(ctx: &Ctx) {
     ctx.assume("'the optimizer encountered a failure' = cache absent when fit starts, or a derivative call failed, or a parameter application other than the final re-application failed (derived from the call log; the optimizer queries residuals after every trial step)");
     *ctx.exhaustive.lock().unwrap() = Some(true);
     let thorough = ctx.tier == Tier::Thorough;
-    let n = ctx.tier.pick(16, 64);
-    ctx.run_cases("fault-enumeration", n, ctx.tier.pick(60.0, 600.0), |r, c, o| {
+    let n = ctx.tier.pick(16, 160);
+    ctx.run_cases("fault-enumeration", n, ctx.tier.pick(60.0, 1800.0), |r, c, o| {
         if c % 16 >= 12 {
             scenario_case::<f32>(r, c, o, thorough)
         } else {
